@@ -611,3 +611,45 @@ def gen_scenario(rng):
         post = gen_script(rng, kind, len(V), nF, nCorn, nC, rng.randint(4, 8))
         return kind, V, F, C, pre + [["move", [[float(x) for x in p] for p in V2]]] + post
     raise RuntimeError("scenario generator failed")
+
+
+# ------------------------------------------------------------------ planar NON-CONVEX faces (darts, L-shapes, arrows)
+NONCONVEX_SHAPES = [
+    [[0, 0], [2, 1], [4, 0], [2, 4]],                                   # dart quad (reflex corner at index 1)
+    [[0, 0], [4, 0], [4, 4], [2, 1], [0, 4]],                           # arrow pentagon
+    [[0, 0], [4, 0], [4, 2], [2, 2], [2, 4], [0, 4]],                   # L-shaped hexagon
+    [[0, 0], [3, 1], [6, 0], [5, 3], [6, 6], [3, 5], [0, 6], [1, 3]],   # four-pointed star octagon
+]
+
+
+def simple_polygon_ccw_2d(P):
+    a2 = sum(P[i][0] * P[(i + 1) % len(P)][1] - P[(i + 1) % len(P)][0] * P[i][1] for i in range(len(P)))
+    return a2 > 0
+
+
+def gen_nonconvex(rng):
+    """(V, F): one planar, simple, counter-clockwise, non-convex polygon (started at a random vertex), possibly with a
+    triangle glued on one of its edges; integer coordinates after an integer shear/scale and an integer embedding"""
+    P = [list(p) for p in rng.choice(NONCONVEX_SHAPES)]
+    a, b, c, d = rng.choice([(1, 0, 0, 1), (2, 0, 0, 1), (1, 1, 0, 1), (1, 0, 1, 1), (2, 1, 0, 1), (1, 0, 0, 2)])   # det > 0
+    P = [[a * x + b * y, c * x + d * y] for x, y in P]
+    assert simple_polygon_ccw_2d(P)
+    n = len(P)
+    r = rng.randrange(n)
+    order = list(range(r, n)) + list(range(r))
+    F = [order]
+    V2 = [list(p) for p in P]
+    if rng.random() < 0.5:   # a triangle on the outside of edge (0,1) of the original numbering
+        (x0, y0), (x1, y1) = P[0], P[1]
+        ex, ey = x1 - x0, y1 - y0
+        apex = [x0 + x1 - 0 + ey, y0 + y1 - ex]        # (p0+p1) + outward normal (ey,-ex) : strictly outside a ccw polygon
+        V2.append(apex)
+        F.append([1, 0, n])
+    pa, pb = rng.randint(-1, 1), rng.randint(-1, 1)
+    V = [[x, y, pa * x + pb * y + rng.randint(0, 1) * 0 + 1] for x, y in V2]
+    return V, F
+
+
+def nonconvex_faces(V, F):
+    """indices of the faces that are planar but not convex"""
+    return [fi for fi, f in enumerate(F) if len(f) > 3 and is_planar([V[v] for v in f]) and not convex_planar([V[v] for v in f])]
